@@ -548,7 +548,11 @@ PROPS["C08"]["required_witnesses"] = PROPS["C08"]["required_witnesses"] + ["C08:
 _c17_jobs = PROPS["C17"]["jobs"]
 PROPS["C17"]["jobs"] = lambda tier: _c17_jobs(tier) + pk_jobs("C17", tier, names=["r11", "r12", "r11-rr2", "r11-rr2-blocked", "r12-fa2"], extra_kw={"until": "sym"}) + pk_jobs(
     "C17", tier, names=["r11"], extra_kw={"until": "sym", "setup": 1})
-PROPS["C17"]["required_witnesses"] = PROPS["C17"]["required_witnesses"] + ["C17:finalised@Splitter", "C17:finalised@Combiner"]
+PROPS["C17"]["required_witnesses"] = PROPS["C17"]["required_witnesses"] + ["C17:finalised@Splitter", "C17:finalised@Combiner", "selftest-row"]
+_c17_jobs2 = PROPS["C17"]["jobs"]
+PROPS["C17"]["jobs"] = lambda tier: _c17_jobs2(tier) + [
+    {"name": "M2/selftest/test_machine-rows", "spec": ("vfy.m2s", "selftest", dict(T=40 if tier == "quick" else 120)), "budget_s": 60, "validate_every": 1,
+     "bounds": "the 12 parameter rows of tests/test_machine.py::test_pipeline_stats as degenerate symbolic ranges; every path is compared with a plain-number run"}]
 
 
 def combo_cfgs(tier):
